@@ -125,10 +125,22 @@ func TestPropRequests(t *testing.T) {
 func checkReq(c *reqcase.Case, rq *reqcase.ReqSpec, ob reqcase.Obs) (string, bool) {
 	unm := false
 	d := reqcase.Route(c, rq)
-	if d.Probe || d.Marker == "" || ob.Delivered != 1 || len(ob.Resp) != 1 {
+	if d.Probe || d.Marker == "" || ob.Delivered != 1 {
 		return "", false
 	}
 	o := script.Predict(rq.Script, reqcase.Ctx(c, rq, d))
+	if len(ob.Resp) == 0 && !d.Silent {
+		// "a value that cannot be marshalled produces a system.internalError response rather
+		// than a malformed or missing message"
+		for _, a := range rq.Script {
+			if a.V != nil && (a.V.Unmarshalable() || a.V.MarshalPanics()) && o.Class == "error" && o.Code == res.CodeInternalError {
+				return fmt.Sprintf("request %s script %s: a handler value that cannot be marshalled left the request without any response", rq.Subject, rq.Script), true
+			}
+		}
+	}
+	if len(ob.Resp) != 1 {
+		return "", false
+	}
 	var p struct {
 		Error *struct{ Code string } `json:"error"`
 		Meta  *struct {
